@@ -12,6 +12,28 @@ def parseDelims (f : String) : List Bytes :=
 def showTokens (ts : List Token) : String :=
   if ts.isEmpty then "-" else " ".intercalate (ts.map Token.show)
 
+/-! ### `parse` op (property C06): scan, then the block parser on the standard table -/
+
+/-- THE PLACE WHERE THE EXPRESSION CHECKER OF THE `parse` OP IS CHOSEN.
+    STUB: accepts every object. To be replaced by the model of `expressions.Parse` (on `tok.args`)
+    once `Liquid/ExprParse.lean` exists; until then the `parse` stream only emits objects whose
+    expressions are valid (and skips harvested templates on which the real parser reports an
+    expression error). -/
+def parseChk : Bytes → Option Cause := fun _ => none
+
+def PErrKind.code : PErrKind → String
+  | .objSyntax _ => "objSyntax"
+  | .notInside => "notInside"
+  | .unterminated => "unterminated"
+  | .tagSyntax _ => "tagSyntax"
+  | .undefinedTag => "undefinedTag"
+
+def showParse : Res PErr (List AST) → String
+  | .ok ast => let sh := AST.shapeList ast; "ok " ++ (if sh.isEmpty then "-" else sh)
+  | .err e => s!"err {e.kind.code} {e.line}"
+  | .panic _ => "panic"
+  | .unmodelled w => "unmodelled " ++ w
+
 def runCase (line : String) : String :=
   match line.splitOn " " with
   | ["scan", d, ln, src] =>
@@ -19,6 +41,8 @@ def runCase (line : String) : String :=
   | ["tw", ops] =>
     let os := if ops == "-" then [] else (ops.splitOn ",").filterMap WOp.parse
     showCalls (writeCalls os)
+  | ["parse", d, src] =>
+    showParse (parseTokens stdGrammar parseChk (scan (parseDelims d) (hexDecode src) 1))
   | ["val", v] =>
     match GoVal.parse v with
     | some x => x.enc
